@@ -33,11 +33,11 @@ CHECKS = {
    "memhttp canonicalises field names and trims optional whitespace like net/http; header names outside the protocol-reserved prefixes"),
  "C16": ("model_checking", "DESIGN.md 4/C16",
    "exhaustive configuration enumeration (interceptor lists x groupings x option nestings x kinds x sides) against a reference onion model",
-   "Every interceptor list up to length 3 (quick) / 4 (thorough) with nil at any positions, every composition into WithInterceptors groups, optional empty groups, every bundling into WithOptions / WithClientOptions / WithHandlerOptions wrappers up to depth 2, for all four RPC kinds on clients and on handlers, is built with the real option constructors; one real call is made and the recorded event log must equal the onion computed from the flat non-nil list (first = outermost, each interceptor exactly once per call and direction).",
+   "Every interceptor list up to length 3 (quick) / 4 (thorough) with nil at any positions, every composition into WithInterceptors groups, optional empty groups, every bundling into WithOptions / WithClientOptions / WithHandlerOptions wrappers up to depth 2, and every option tree over 2..4 single-interceptor groups (direct groups and nested composites as siblings, depth 3/2/1 quick, 3/3/2 thorough), for all four RPC kinds on clients and on handlers, is built with the real option constructors; one real call is made and the recorded event log must equal the onion computed from the flat non-nil list (first = outermost, each interceptor exactly once per call and direction).",
    "interceptors log their first Send/Receive per call; one protocol per configuration (rotating)"),
  "C19": ("model_checking", "DESIGN.md 4/C19",
    "exhaustive configuration x program enumeration on real handlers (panic value x kind x protocol x panic point x interceptor position x panic(nil) runtime semantics)",
-   "Each panic value (nil, error, string, struct, pointer, the http abort sentinel, an error wrapping the sentinel, none) is raised at each point (before anything, after the first response, after the last) in each RPC kind and protocol with WithRecover preceded/followed by 0..2 other interceptors, under both GODEBUG panicnil settings; the recovery function must run exactly once with the recovered value, the client must receive exactly its error after the messages already sent, the sentinel must leave ServeHTTP untouched with zero recovery calls, and non-panicking calls must equal a handler without WithRecover.",
+   "Each panic value (nil, error, string, struct, pointer, the http abort sentinel, an error wrapping the sentinel, none) is raised at each point (before anything, after the first response, after the last) in each RPC kind and protocol with WithRecover preceded/followed by 0..2 other interceptors, under both GODEBUG panicnil settings, with the recovery function returning a coded error, an uncoded one, one wrapping a coded error, one wrapping context.DeadlineExceeded or a coded one with multi-valued metadata; the recovery function must run exactly once with the recovered value, the client must receive exactly its error after the messages already sent (identical observation to a handler that returns that error at the same point), the sentinel must leave ServeHTTP untouched with zero recovery calls, and non-panicking calls must equal a handler without WithRecover.",
    "memhttp reports what escapes ServeHTTP as net/http's server would see it"),
  "C08": ("model_checking", "DESIGN.md 4/C08",
    "bounded exhaustive configuration + history enumeration on real clients/handlers with a wire-level oracle (recorded exchange decompressed by reference implementations)",
@@ -53,11 +53,11 @@ CHECKS = {
    "signed numbers and zero-padding beyond the digit limit are recorded but not judged (the property lists neither as grammatical nor as malformed); one known finding (Connect client with < 1 ms left sends no timeout)"),
  "C12": ("model_checking", "DESIGN.md 4/C12",
    "exhaustive request enumeration (method x HTTP version x Content-Type near-miss closure x codec sets x RPC kinds) into the real Handler.ServeHTTP against a reference computed from the property text",
-   "Eight methods x three HTTP versions x every advertised Content-Type, every single-character deletion / case flip / insertion of each, parameter and whitespace variants, the application/{grpc,grpc-web,connect,}{,+}{names} grid and unrelated types x four registered codec sets x four RPC kinds (1.5e5 requests quick) are served by real handlers; 405+Allow, 505, 415 iff the type is not in the reference set, Accept-Post equal to the reference set, zero runs of user code and interceptors when rejected and exactly one run with the constructor's Spec otherwise. Real calls over six URL shapes check that client and handler interceptors see the same procedure and stream type.",
+   "Eight methods x three HTTP versions x every advertised Content-Type, every single-character deletion / case flip / insertion of each, parameter and whitespace variants, the application/{grpc,grpc-web,connect,}{,+}{names} grid and unrelated types x four registered codec sets x four RPC kinds (1.5e5 requests quick) are served by real handlers; 405+Allow, 505, 415 iff the type is not in the reference set, Accept-Post equal to the reference set, zero runs of user code and interceptors when rejected and exactly one run with the constructor's Spec otherwise (as seen by interceptors and, through Request.Spec(), by unary and server-stream user code). Real calls over six URL shapes check that client and handler interceptors see the same procedure and stream type.",
    "requests are handed to ServeHTTP directly; with a codec literally named grpc the Connect and gRPC types collide and only the run-at-most-once clause is asserted"),
  "C18": ("model_checking", "DESIGN.md 4/C18",
    "complete enumeration of the codec domains themselves (all 2^32 codes in thorough; all byte strings up to length 3; all strings up to length 6 over a decoder alphabet)",
-   "Code text round trip and 4xx/5xx status for every value below 2^20, above 2^32-2^20 and around every power of two (quick) or all 2^32 values (thorough); UnmarshalText rejects every string of length <= 3 over 40 symbols and every single-character edit of each name that is neither a name nor code_<number>; the gRPC percent-encoding round-trips every byte string of length <= 3 (16.8 M) with printable-ASCII output, its decoder is total on every string of length <= 6 over {%,0,A,f,G,space,0xFF,a}; every code returned by a real unary Connect handler reaches the wire as 4xx/5xx; no operation panics.",
+   "Code text round trip and 4xx/5xx status for every value below 2^20, above 2^32-2^20 and around every power of two (quick) or all 2^32 values (thorough); UnmarshalText rejects every string of length <= 3 over 40 symbols and every single-character edit of each name that is neither a name nor code_<number>; the gRPC percent-encoding round-trips every byte string of length <= 3 (16.8 M) with printable-ASCII output, its decoder is total on every string of length <= 6 over {%,0,A,f,G,space,0xFF,a}; Encode/DecodeBinaryHeader round-trip every byte string of length <= 3 in the padded and unpadded spelling with header-safe output, DecodeBinaryHeader is total on every string of length <= 6 over {A,Q,=,-,_,+,/,space,0xFF}; every code returned by a real unary Connect handler reaches the wire as 4xx/5xx; no operation panics.",
    "unexported functions reached through overlay-only exported wrappers; code_<signed or in-range number> forms are not judged"),
  "C05": ("model_checking", "DESIGN.md 4/C05 and appendix A",
    "program enumeration on the real library decoded by an independent strict reference codec (refwire), plus exhaustive enumeration of the reference codec's legal encoding variations replayed against the implementation",
@@ -69,7 +69,7 @@ CHECKS = {
    "client runs with a 64 KiB read limit as a memory guard for lying length prefixes; which of several contradictory statuses wins is not asserted"),
  "C07": ("model_checking", "DESIGN.md 4/C07",
    "grammar-bounded exhaustive enumeration of hostile HTTP requests (deviation-bounded product of menus plus all short byte strings) into the real Handler.ServeHTTP, judged by the reference decoder",
-   "Every combination of at most 2 (quick) / 3 (thorough) simultaneous deviations from a valid request over method, HTTP version, Content-Type, encoding, accept list, timeout string, ~20 body shapes and handler read limit, plus every byte string of length <= 4 / 6 over a framing alphabet as the body, for every protocol, codec and RPC kind (6e4 quick, 2.2e6 thorough). ServeHTTP must return, not panic, answer with a response that refwire accepts for the selected protocol or a bare 405/415/505, run user code at most once and only with messages that decode from the request, use the documented codes (unimplemented for unknown compression, invalid_argument for bad timeouts, undecodable payloads and oversize messages) and never answer malformed framing as success.",
+   "Every combination of at most 2 (quick) / 3 (thorough) simultaneous deviations from a valid request over method, HTTP version, Content-Type, encoding, accept list, 17 timeout strings, ~20 body shapes and handler read limit, plus every byte string of length <= 4 / 6 over a framing alphabet as the body, for every protocol, codec and RPC kind (6e4 quick, 2.2e6 thorough). ServeHTTP must return, not panic, answer with a response that refwire accepts for the selected protocol or a bare 405/415/505, run user code at most once and only with messages that decode from the request, use the documented codes (unimplemented for unknown compression, invalid_argument for bad timeouts, undecodable payloads and oversize messages) and never answer malformed framing as success.",
    "requests are handed to ServeHTTP directly; unknown request flags, trailing bytes after a unary message and zero-length payloads under any codec/flag are recorded but not judged"),
  "C03": ("fault_enumeration", "DESIGN.md 4/C03",
    "exhaustive enumeration of environment answers (read segmentations) over a corpus of valid bodies replayed to the real client/handler, differential oracle against one-piece delivery",
